@@ -23,8 +23,20 @@ KNOWN_FINDINGS = os.path.join(VERIF, "known_findings.json")
 sys.dont_write_bytecode = True
 
 
+def _fast_tmp():
+    """Scratch files go to tmpfs when there is one (file-heavy checks are ~9x faster than on the disk-backed /tmp)."""
+    import tempfile
+
+    base = os.environ.get("VERIF_TMP")
+    if not base and os.path.isdir("/dev/shm") and os.access("/dev/shm", os.W_OK):
+        base = "/dev/shm"
+    if base:
+        tempfile.tempdir = base
+
+
 def bootstrap():
     """Bind `import uberjob` to the working tree and prove it."""
+    _fast_tmp()
     if sys.path[0] != SRC:
         sys.path.insert(0, SRC)
     for name in list(sys.modules):
